@@ -388,3 +388,15 @@ func (w *World) Facts() *gen.DataFacts {
 	sort.Strings(ks)
 	return gen.FactsFrom(docs, w.Tok.Ref, ps, ks, nums)
 }
+
+// FileBytes returns the raw bytes of a stored file.
+func (w *World) FileBytes(ptr string) ([]byte, error) {
+	if w.Mem != nil {
+		b, ok := w.Mem.Get(ptr)
+		if !ok {
+			return nil, fmt.Errorf("no such file %s", ptr)
+		}
+		return b, nil
+	}
+	return os.ReadFile(ptr)
+}
